@@ -100,7 +100,9 @@ theorem T_C15_fixpoint_iter (g : Grid) (fixed : List Nat) (p : List V3) (k : Nat
 Full statement (not proved for all sizes): for all nx ny ≥ 1, the structured quad map of nx × ny
 cells (and the nx × ny × nz hexahedral assembly) with the lattice coordinates of its points is
 `LatticeLike`, hence every affine image of the lattice is a fixed point of smoothing.
-Proved part: the implication below for *every* grid, plus `decide`d instances.
+Proved part: the implication below for *every* grid (`LatticeLike`, defined in `Lemmas/C15.lean`, is the
+Prop form of the model's decidable `latticeLikeB`), plus instances by kernel evaluation; the harness lets
+the model decide `latticeLikeB` for every regular grid it generates (request `c15.lattice`).
 -/
 /-- If the junction coordinates are lattice-like, every affine image `o + x·u + y·v + z·w` of the
     coordinates is left unchanged by smoothing, for any number of iterations. -/
